@@ -241,7 +241,7 @@ pub fn eval(b: &Bases, c: &DirCase) -> CaseOut {
             listing.push((sb, lfn, name.encode_utf16().count()));
         }
         drop(dir);
-        s.abandon();
+        drop(s); // the per-thread device discards writes, so the destructors are harmless (and nothing leaks)
         Ok(listing)
     });
     let budget_hit = dev.with(|d| d.budget_hit);
@@ -570,6 +570,9 @@ pub fn run(tier: Tier, seed: u64) -> i32 {
     if !rep.failed() {
         let n = tier.pick(150_000u32, 5_000_000u32);
         rep.add(run::run_random("random_slot_soup", seed, n, "dirslots", || run::boxed(soup_strategy()), |c: &DirCase| eval(b, c)));
+    }
+    if !rep.failed() && tier == Tier::Thorough {
+        rep.add(run::fuzz_block("dirslots", 8_000_000, seed, 2048));
     }
     rep.finish()
 }
